@@ -194,8 +194,10 @@ async fn apply_version(
             }
         }
         if let Some(o) = svr_op {
-            if let Err(e) = apply::apply_op(txn, &o).await {
-                warn!("Invalid operation when syncing: {e} (ignored)");
+            // An operation that is not valid in the current state is ignored, but a failure of
+            // the storage must fail the sync: otherwise the operation would be lost.
+            if !apply::try_apply_op(txn, &o).await? {
+                warn!("Invalid operation when syncing: {o:?} (ignored)");
             }
             transformed_server_ops.push(o);
         }
